@@ -44,6 +44,18 @@ class C11(SigProp):
                                       "classes": [{"name": "O0", "base": None, "signals": sigs, "falsy": False}],
                                       "instances": [0, 0], "copies": {}, "reborn": {"1": 0}, "ops": ops,
                                       "origin": f"reborn:{nattr}:{subscribe}:{rep}"})
+        # nobody holds the owner any more but streams / wait_event() calls are still listening to its signals
+        for backend in ("asyncio", "trio"):
+            for how in ("subscribe", "wait"):
+                for ninst in (1, 2):
+                    for nattr in (1, 2):
+                        attrs = ["sa", "sb"][:nattr]
+                        ops = [{"op": "access", "inst": n, "attr": a, "evcls": 0} for n in range(ninst) for a in attrs]
+                        ops.append({"op": how, "s": 0, "chans": list(range(len(ops))), "filter": {"k": "all"}, "cap": 50})
+                        cases.append({"kind": "sig", "nevcls": 1, "evparents": [], "backend": backend,
+                                      "classes": [{"name": "O0", "base": None, "signals": {a: 0 for a in attrs}, "falsy": False}],
+                                      "instances": [0] * ninst, "copies": {}, "reborn": {}, "ops": ops,
+                                      "origin": f"listened:{how}:{ninst}:{nattr}"})
         return cases
 
     def monitor(self, case, impl):
@@ -91,7 +103,7 @@ class C11(SigProp):
                 if not ok and out != ["typeError"]:
                     fails.append(f"an event of the wrong class was not rejected with TypeError on channel {op['chan']}: {out}")
         for f in impl["flags"]:
-            if "carries" in f:
+            if "carries" in f or "were not collected while" in f:
                 fails.append(f)
         if impl["owners_alive_after_gc"]:
             fails.append(f"{impl['owners_alive_after_gc']} owner instance(s) still alive after del + gc.collect(): binding keeps owners alive")
